@@ -516,8 +516,8 @@ class Tensor(object):
                         [
                             core1,
                             torch.zeros(
-                                core2.shape[0],
-                                core1.shape[1],
+                                core1.shape[0],
+                                core2.shape[1],
                                 core1.shape[2],
                                 core1.shape[3],
                                 device=device,
